@@ -40,7 +40,8 @@ func loFindFile(L *LState, name, pname string) (string, string) {
 		if _, err := os.Stat(luapath); err == nil {
 			return luapath, ""
 		} else {
-			messages = append(messages, err.Error())
+			// as findfile in loadlib.c: the name that was tried, not the error text of the OS
+			messages = append(messages, fmt.Sprintf("no file '%s'", luapath))
 		}
 	}
 	return "", strings.Join(messages, "\n\t")
